@@ -217,10 +217,10 @@ def _children(o):
     return []
 
 
-def _number_created(heap, cls):
+def _number_created(heap, cls, reachable_only=False):
     """Give the factory-made objects addresses n0+1.. in the order in which they are met when
     walking the pre-existing cells (independent of the order the library made them in);
-    unreachable ones follow in creation order."""
+    unreachable ones follow in creation order (or are left out: reachable_only)."""
     created = {id(o): o for o in heap.created}
     order = []
     seen = set()
@@ -233,16 +233,36 @@ def _number_created(heap, cls):
                 walk(ch)
     for a in range(1, heap.n0 + 1):
         walk(heap.objs[a])
-    for o in heap.created:
-        if id(o) not in seen:
-            seen.add(id(o))
-            order.append(o)
-            walk(o)
+    if not reachable_only:
+        for o in heap.created:
+            if id(o) not in seen:
+                seen.add(id(o))
+                order.append(o)
+                walk(o)
     for o in order:
         heap.cells.append({'cls': cls, 'items': []})
         a = len(heap.cells)
         heap.objs[a] = o
         heap.ids[id(o)] = a
+
+
+def _observe(heap, case, ok, cls, res, events, nfac, reachable_only=False):
+    """project what one evaluation did: outcome, returned object, final heap, write log"""
+    obs = {'ok': ok, 'cls': cls, 'v': {'k': 'none'}}
+    _number_created(heap, case['missing'], reachable_only)
+    if ok:
+        obs['v'] = heap.project(res)
+    obs['heap'] = heap.snapshot()
+    log = []
+    for e in events:
+        if e['ev'] == 'factory':
+            log.append({'ev': 'factory', 'a': e['n'], 'op': 'call', 'key': {'k': 'none'}, 'done': True})
+        else:
+            log.append({'ev': 'write', 'a': heap.ids.get(id(e['o']), 0), 'op': e['op'],
+                        'key': heap.project(e['key']), 'done': e['done']})
+    obs['log'] = log
+    obs['nfac'] = nfac
+    return obs
 
 
 def run_case(case, spelling, logging):
@@ -277,29 +297,64 @@ def run_case(case, spelling, logging):
             call = lambda: glom.delete(target, path, ignore_missing=case['ignore'])
         else:
             call = lambda: glom.glom(target, Delete(path, ignore_missing=case['ignore']), **kw)
-    obs = {'ok': True, 'cls': '', 'v': {'k': 'none'}}
+    ok, cls, res = True, '', None
     try:
         res = call()
     except Exception as e:
-        obs['ok'] = False
-        obs['cls'] = exc_name(e)
+        ok, cls = False, exc_name(e)
     events = list(WLOG)
     del WLOG[:]
-    _number_created(heap, case['missing'])
-    if obs['ok']:
-        obs['v'] = heap.project(res)
-    obs['heap'] = heap.snapshot()
-    log = []
-    for e in events:
-        if e['ev'] == 'factory':
-            log.append({'ev': 'factory', 'a': e['n'], 'op': 'call', 'key': {'k': 'none'}, 'done': True})
-        else:
-            log.append({'ev': 'write', 'a': heap.ids.get(id(e['o']), 0), 'op': e['op'],
-                        'key': heap.project(e['key']), 'done': e['done']})
-    obs['log'] = log
-    obs['nfac'] = nfac[0]
+    obs = _observe(heap, case, ok, cls, res, events, nfac[0])
     FAULT.clear()
     return obs
+
+
+def run_reuse(case1, case2, spelling, logging, mode):
+    """ONE Assign spec object evaluated on two targets (same path / value / factory, no faults).
+    mode 'seq': two glom() calls in sequence; mode 'list': one call glom([t1, t2], [spec]).
+    Returns (obs1, obs2); in list mode both carry the outcome of the single call, the write log is
+    not attributed (empty) and only reachable factory-made objects are numbered."""
+    name, mk, s_rooted = spelling
+    heaps = [build(case1, logging), build(case2, logging)]
+    targets = [heaps[0].val(case1['root']), heaps[1].val(case2['root'])]
+    fcls = (WRITING if logging else codec.PLAIN)[case1['missing']]
+    ctx = {'n': 0, 'heaps': [heaps[0]]}
+
+    def factory():
+        ctx['n'] += 1
+        WLOG.append({'ev': 'factory', 'n': ctx['n']})
+        o = fcls()
+        for h in ctx['heaps']:
+            h.created.append(o)
+        return o
+    spec = Assign(mk(), mk_val(heaps[0], case1['val']), missing=factory)
+    out = []
+    if mode == 'seq':
+        for h, t, case in zip(heaps, targets, (case1, case2)):
+            ctx['n'], ctx['heaps'] = 0, [h]
+            del WLOG[:]
+            ok, cls, res = True, '', None
+            try:
+                res = glom.glom(t, spec, **({'scope': {'x': t}} if s_rooted else {}))
+            except Exception as e:
+                ok, cls = False, exc_name(e)
+            events = list(WLOG)
+            del WLOG[:]
+            out.append(_observe(h, case, ok, cls, res, events, ctx['n']))
+    else:
+        ctx['heaps'] = heaps
+        del WLOG[:]
+        ok, cls, res = True, '', None
+        try:
+            res = glom.glom(targets, [spec])
+            if not (isinstance(res, list) and len(res) == 2):
+                ok, cls = False, 'bad-list-result'
+        except Exception as e:
+            ok, cls = False, exc_name(e)
+        del WLOG[:]
+        for i, (h, case) in enumerate(zip(heaps, (case1, case2))):
+            out.append(_observe(h, case, ok, cls, res[i] if ok else None, [], 0, reachable_only=True))
+    return out[0], out[1]
 
 
 def conform_clause(case, exp, obs):
@@ -335,8 +390,34 @@ def case_of(st):
     return st['case']
 
 
+def replay_reuse(st, out):
+    """spec -> code for a second-evaluation state: the spec object of prev.case is evaluated on
+    prev.case's target and then on case's target (sequentially, and through a list spec when both
+    evaluations are expected to succeed); each evaluation is held against its own expectation."""
+    case1, exp1, case2, exp2 = st['prev']['case'], st['prev']['exp'], st['case'], st['exp']
+    for logging in (False, True):
+        for sp in spellings(case2['steps']):
+            modes = ['seq']
+            if exp1['ok'] and exp2['ok'] and not sp[2]:
+                modes.append('list')
+            for mode in modes:
+                obs1, obs2 = run_reuse(case1, case2, sp, logging, mode)
+                out['n'] += 2
+                for which, (case, exp, obs) in enumerate(((case1, exp1, obs1), (case2, exp2, obs2)), 1):
+                    clause = conform_clause(case, exp, obs)
+                    if clause:
+                        info = dict(case=case, exp=exp, obs=obs, spelling=sp[0], logging=logging, clause=clause,
+                                    reuse=dict(mode=mode, which=which, first=case1, second=case2))
+                        out['bad'].append(dict(why='%s [%s%s, spec object reused: %s evaluation %d]'
+                                               % (clause, sp[0], ',logging' if logging else '', mode, which), case=info))
+                if mode == 'seq' and logging and obs2['log'] != st['log'] and not conform_clause(case2, exp2, obs2):
+                    out['log_rows'].append(dict(case=case2, obs=obs2, spelling=sp[0]))
+
+
 def replay_state(st, out, matcher_info=None):
     """spec -> code for one terminal TLC state: every spelling, plain and logging classes."""
+    if st.get('round') == 2:
+        return replay_reuse(st, out)
     case, exp = st['case'], st['exp']
     flagged = any(f in ('wfault', 'dfault') for f in case['flags'])
     for logging in (False, True):
@@ -390,6 +471,11 @@ def _branches(st):
         keys.append('lenient')
     if has_star(case['steps']):
         keys.append('wildcard')
+    if st.get('round') == 2:
+        b1 = st['prev']['exp']['ok'] and len(st['prev']['exp']['heap']) - len(st['prev']['case']['heap0'])
+        b2 = st['exp']['ok'] and len(st['exp']['heap']) - n0
+        if b1 and b2 and b1 != b2:
+            keys.append('reuse-shallower-then-deeper' if b1 > b2 else 'reuse-deeper-then-shallower')
     return keys
 
 
@@ -558,16 +644,47 @@ def rand_case(rng, kind):
     return case
 
 
+def pruned_variant(rng, case):
+    """A second target for the same spec: a copy of the heap in which one entry on the existing
+    prefix of the destination path is removed, so that the prefix stops existing earlier."""
+    import copy
+    cells, cur, spots = case['heap0'], case['root'], []
+    for i, st in enumerate(case['steps'][:-1]):
+        nxt = abstract_step(cells, cur, st)
+        if nxt is None:
+            break
+        if cells[cur['a'] - 1]['cls'] in ('dict', 'obj'):
+            spots.append((cur['a'], st['arg']))
+        cur = nxt
+    if not spots:
+        return None
+    a, key = rng.choice(spots)
+    c2 = copy.deepcopy(case)
+    c2['heap0'][a - 1]['items'] = [it for it in c2['heap0'][a - 1]['items'] if it[0] != key]
+    return c2
+
+
 def record_rows(rng, n, kind):
-    """Random cases run on the logging classes in a random spelling: rows for Trace_C11/12."""
+    """Random cases run on the logging classes in a random spelling: rows for Trace_C11/12.
+    Some assign cases with missing= are run with ONE spec object on two targets whose prefix stops
+    existing at different segments (both orders); each evaluation is a row of its own."""
     rows = []
-    for _ in range(n):
+    while len(rows) < n:
         case = rand_case(rng, kind)
         sps = spellings(case['steps'])
         sp = rng.choice(sps)
+        if kind == 'assign' and case['missing'] != 'none' and not any(case['flags']) and case['facfail'] == 0 \
+                and case['val']['k'] == 'lit' and rng.random() < 0.6:
+            c2 = pruned_variant(rng, case)
+            if c2 is not None:
+                pair = [case, c2] if rng.random() < 0.5 else [c2, case]
+                o1, o2 = run_reuse(pair[0], pair[1], sp, True, 'seq')
+                rows.append(dict(case=pair[0], obs=o1, spelling=sp[0], reuse='first'))
+                rows.append(dict(case=pair[1], obs=o2, spelling=sp[0], reuse='second'))
+                continue
         obs = run_case(case, sp, True)
         rows.append(dict(case=case, obs=obs, spelling=sp[0]))
-    return rows
+    return rows[:n]
 
 
 # ---- driver shared by c11.py / c12.py ---------------------------------------------------
@@ -663,7 +780,9 @@ class Driver:
 
     def run_coverage(self, check):
         """vacuity: every machine action is taken (TLC -coverage on a small universe)."""
-        res = vlib.run_tlc(self.mc, cfg=self.mc, constants=dict(self.coverage_universe, Mutant='"none"'), coverage=True)
+        import os
+        cfg = self.mc + '_cov' if os.path.exists(os.path.join(vlib.SPEC_DIR, self.mc + '_cov.cfg')) else self.mc
+        res = vlib.run_tlc(self.mc, cfg=cfg, constants=dict(self.coverage_universe, Mutant='"none"'), coverage=True)
         vlib.tlc_must_pass(res, self.mc + ' coverage')
         cov = {a: res['coverage'].get(a, 0) for a in self.need}
         if not all(cov.values()):
@@ -716,7 +835,10 @@ class Driver:
     def run_mutants(self, check):
         got = {}
         for name, laws in self.mutants.items():
-            consts = dict(self.mutant_universe, Mutant='"%s"' % name)
+            universe = self.mutant_universe
+            if isinstance(laws, dict):
+                universe, laws = laws['universe'], laws['laws']
+            consts = dict(universe, Mutant='"%s"' % name)
             res = vlib.run_tlc(self.mc, cfg=self.mc, constants=consts)
             got[name] = res['violated']
             if res['violated'] not in laws:
@@ -737,7 +859,8 @@ class Driver:
             self.lap(check, 'tlc+replay ' + label)
         check.extra['behaviours_by_branch'] = dict(sorted(self.branches.items()))
         want = ['ok', 'fetch-parent', 'failed-write', 'fault-flag', 'wildcard', 'error:PathAccessError', 'error:any']
-        want += ['factory-call', 'build-tail', 'store'] if self.kind == 'assign' else ['del', 'error:PathDeleteError', 'lenient']
+        want += ['factory-call', 'build-tail', 'store', 'reuse-shallower-then-deeper', 'reuse-deeper-then-shallower'] \
+            if self.kind == 'assign' else ['del', 'error:PathDeleteError', 'lenient']
         if not all(self.branches.get(k) for k in want):
             raise vlib.MachineryError('vacuous universe: no behaviour through %s'
                                       % [k for k in want if not self.branches.get(k)])
@@ -771,6 +894,20 @@ class Driver:
         print('heap0:', _json.dumps(case['heap0']))
         bad = 0
         logging = info.get('logging', True)
+        if info.get('reuse'):
+            ru = info['reuse']
+            print('ONE spec object evaluated on two targets (%s), this is evaluation %d' % (ru['mode'], ru['which']))
+            print('first target heap0:', _json.dumps(ru['first']['heap0']))
+            print('second target heap0:', _json.dumps(ru['second']['heap0']))
+            sp = [x for x in spellings(case['steps']) if x[0] == info['spelling']][0]
+            obs = run_reuse(ru['first'], ru['second'], sp, logging, ru['mode'])[ru['which'] - 1]
+            clause = conform_clause(case, info['exp'], obs)
+            print('observed: ok=%s cls=%s v=%s' % (obs['ok'], obs['cls'], obs['v']))
+            print('  heap:', _json.dumps(obs['heap']))
+            print('  expected: %s' % _json.dumps({k: info['exp'][k] for k in ('ok', 'err', 'lenient', 'v')}))
+            print('  expected heap: %s' % _json.dumps(info['exp']['heap']))
+            print('  clause: %r' % clause)
+            return 1 if clause else 0
         for sp in spellings(case['steps']):
             if info.get('spelling') and sp[0] != info['spelling']:
                 continue
